@@ -280,6 +280,10 @@ func handleInsertValues(p *InsertPlan) error {
 			if err != nil {
 				return fmt.Errorf("find table index error: %v", err)
 			}
+		default:
+			// a sharding value that is not a literal (signed number, arithmetic, function call) cannot be routed:
+			// reject the statement instead of leaving the row out of the rewritten statements
+			return fmt.Errorf("sharding value must be a literal")
 		}
 	}
 
